@@ -5,6 +5,9 @@ VERIF = os.path.dirname(os.path.dirname(os.path.abspath(__file__)))
 ALL = ["C%02d" % i for i in range(1, 21)]
 
 CHECKS = {
+ "C13": dict(engine="H+I", technique="explicit-state BFS over keystroke and command histories on the real Terminal through a fake connection against a reference line editor/history; exhaustive byte-string/segmentation sweeps through the real Telnetd and TcpRpc front ends in persistent forked workers under ASan/UBSan",
+   text="Every keystroke sequence up to the depth over printable characters and editing/history keys is compared with a reference editor (line executed at Enter, one prompt per Enter); every command sequence over probe/history/!!/!n/!-n/exit with boundary and overflowing integers on histories of length 0/1/20/21 must re-run exactly the addressed entry or report an error; every byte string up to length 4/5 over a telnet/escape alphabet in every 2-way segmentation, all frame truncations and teardown sequences must leave the process alive, sanitizer-clean, exception-free, segmentation-independent and still answering a probe command.",
+   note="Trusted: reference editor conventions (DESIGN 1.7), ASan/UBSan, interposed epoll_wait for idle steps; a crash is attributed to one job by a persistent forked worker.", ref="2/C13"),
  "C14": dict(engine="I+H", technique="exhaustive enumeration of JSON values x concatenations x segmentations and of hostile byte strings / length fields on the three real framings (forked batches, ASan/UBSan), plus explicit-state BFS to a fixpoint over request/response/duplicate/unknown-id/clock-advance histories on two real Rpc peers under a virtual clock",
    text="Every generated JSON value round-trips through each framing's own encoder; every concatenation of up to 3 messages under every split into up to 3 segments (2-segment and fixed-chunk splits under ASan) decodes to the same sequence with unconsumed bytes re-presented; extreme length fields, wrong magic, every truncation and every short byte string over a JSON-punctuation alphabet must be answered by return value only. The completion half explores all histories for <=3 requests to a fixpoint: each callback exactly once, response before the deadline else timeout, duplicates/late/unknown ids ignored.",
    note="Trusted: the protos keep no state between onRecvData calls (so 2-segment + chunked ASan splits present every buffer window); stack limit 8 MiB for the deep-nesting family; virtual clock at clock_gettime.", ref="2/C14"),
